@@ -523,10 +523,13 @@ def run(ctx):
     r03g(ctx)
     r03h(ctx)
     r03i(ctx)
-    from .c02 import r02f
-    r02f(ctx)     # the size-derived cap of compound edits is an upper bound only if no node has size 0
+    from .c02 import r02f, r02f2
+    r02f(ctx)
+    r02f2(ctx)     # the size-derived cap of compound edits is an upper bound only if no node has size 0
     from .c04 import r04d
     r04d(ctx)
+    from .c04 import r04i
+    r04i(ctx)     # a transient upper bound below the lower bound raises inside the enclosing edit: no total in any view
     from .c07 import r07l
     r07l(ctx)     # the annotated tree of a comparison carries that comparison's edits only (fresh edit state per edited copy)
     ctx.assume("arithmetic inside the third-party assignment solver and numpy accumulation is not analysed")
